@@ -99,6 +99,12 @@ def case(spec):
     if kind == "gauss":
         nt = int(rng.integers(1, 7))
         nphi = 2 * nt if rng.random() < 0.5 else 2 * int(rng.integers(1, 7))
+        if spec.get("fine"):
+            # a fine sampling (hundreds of directions): cos x weight of the grazing ring gets very small
+            nt = int(rng.integers(20, 29))
+            nphi = 2 * int(rng.integers(10, 17))
+            scale = float(10.0 ** rng.uniform(-1, 1))
+            out["dist"]["fine_sampling_%d00+" % ((nt * nphi) // 100)] = 1
         dirs = S.gauss_hemisphere(nt, nphi, scale)
         nt2 = int(rng.integers(1, 5))
         nphi2 = 2 * int(rng.integers(1, 5))
@@ -113,7 +119,7 @@ def case(spec):
     ns2 = src2.csize
     w0 = np.array(dirs.weights, dtype=float).copy()
     z = np.array(dirs.z, dtype=float).reshape(-1)
-    tag = dict(kind=kind, seed=spec["seed"], idx=spec["idx"], n=n, nb=nb, scale=scale,
+    tag = dict(kind=kind, fine=bool(spec.get("fine")), seed=spec["seed"], idx=spec["idx"], n=n, nb=nb, scale=scale,
                s=s.tolist(), a=a.tolist(), **samp)
     out["sample"] = tag
     out["dist"]["kind_" + kind] = 1
@@ -263,6 +269,7 @@ def run(res):
     n_generic = 60 if quick else 900
     specs = [dict(seed=res.seed, idx=i, kind="gauss") for i in range(n_gauss)]
     specs += [dict(seed=res.seed, idx=n_gauss + i, kind="generic") for i in range(n_generic)]
+    specs += [dict(seed=res.seed, idx=500000 + i, kind="gauss", fine=True) for i in range(2 if quick else 12)]
     for r in fw.run_parallel(case, specs):
         res.absorb(r)
     res.rule = ("gauss: Gauss-Legendre(cos theta on [0,1]) x uniform azimuth samplings 1x2 ... 6x12 (n_phi even), "
@@ -288,4 +295,4 @@ def run(res):
 def replay(res, payload):
     for f in payload.get("failures", []) + payload.get("correspondence", []):
         c = f.get("case", {})
-        res.absorb(case(dict(seed=c["seed"], idx=c["idx"], kind=c.get("kind", "gauss"))))
+        res.absorb(case(dict(seed=c["seed"], idx=c["idx"], kind=c.get("kind", "gauss"), fine=bool(c.get("fine")))))
